@@ -25,7 +25,7 @@ use nftac::ExampleContractClient as Client;
 mod lab {
     use soroban_sdk::{contract, contractimpl, vec, Address, Env, String, Symbol, Vec};
     use stellar_access::access_control::{set_admin, AccessControl};
-    use stellar_macros::{has_any_role, has_role, only_admin, only_any_role, only_role};
+    use stellar_macros::{has_any_role, has_role, only_admin, only_any_role, only_role, when_not_paused};
 
     #[contract]
     pub struct Lab;
@@ -39,6 +39,8 @@ mod lab {
         fn stack_any_admin(e: &Env, caller: Address) -> String;
         fn stack_role_admin(e: &Env, caller: Address) -> String;
         fn stack_admin_any(e: &Env, caller: Address) -> String;
+        fn stack_np_admin(e: &Env) -> String;
+        fn stack_admin_np(e: &Env) -> String;
     }
 
     #[contractimpl]
@@ -94,6 +96,19 @@ mod lab {
         #[only_admin]
         #[only_any_role(caller, ["minter", "burner"])]
         fn stack_admin_any(e: &Env, caller: Address) -> String {
+            String::from_str(e, "ok")
+        }
+
+        // a guard of another family on top of / beneath the admin guard (the contract is never paused)
+        #[when_not_paused]
+        #[only_admin]
+        fn stack_np_admin(e: &Env) -> String {
+            String::from_str(e, "ok")
+        }
+
+        #[only_admin]
+        #[when_not_paused]
+        fn stack_admin_np(e: &Env) -> String {
             String::from_str(e, "ok")
         }
     }
@@ -370,6 +385,15 @@ impl Sys {
                 set_auth_same(e, &who, &Inv::new(&self.c, "multi_role_action", args(e, (caller.clone(),))));
                 res_of(&cl.try_multi_role_action(&caller))
             }
+            "stack_np_admin" | "stack_admin_np" => {
+                set_auth_same(e, &who, &Inv::new(&self.c, kind, args(e, ())));
+                if self.imp == "lab" {
+                    let r = e.try_invoke_contract::<soroban_sdk::Val, soroban_sdk::Error>(&self.c, &Symbol::new(e, kind), args(e, ()));
+                    res_of(&r)
+                } else {
+                    ("fail", -9)
+                }
+            }
             "stack_any_admin" | "stack_role_admin" | "stack_admin_any" => {
                 // only the lab contract has these entry points
                 let caller = addr("caller");
@@ -542,7 +566,7 @@ fn main() {
                             "grant", "grant", "grant", "grant", "grant", "grant", "revoke", "revoke", "revoke", "revoke",
                             "renounce_role", "renounce_role", "set_role_admin", "set_role_admin", "transfer", "accept",
                             "renounce_admin", "admin_fn", "mint", "mint", "multi_role_action", "multi_role_auth_action",
-                            "stack_any_admin", "stack_role_admin", "stack_admin_any",
+                            "stack_any_admin", "stack_role_admin", "stack_admin_any", "stack_np_admin", "stack_admin_np",
                             "burn", "burn",
                         ],
                     );
@@ -581,7 +605,7 @@ fn main() {
                                 subset(&mut r, accts).into_iter().filter(|x| *x != admin).collect();
                             mk(kind, "none", "none", "none", "none", &others)
                         }
-                        "renounce_admin" | "admin_fn" => {
+                        "renounce_admin" | "admin_fn" | "stack_np_admin" | "stack_admin_np" => {
                             mk(kind, "none", "none", "none", "none", &gen_auth(&mut r, &admin, &admin, accts))
                         }
                         k => {
